@@ -783,11 +783,25 @@ func executePlannedSelection(eCtx *executionContext, sp *selectionPlan, source i
 // coercion.
 func resolvePlannedField(eCtx *executionContext, parentType *Object, source interface{}, fp *fieldPlan, path *ResponsePath) (result interface{}, ok bool) {
 	var returnType Output
+	var resolveFieldFinishFn resolveFieldFinishFuncHandler
 	defer func() {
 		if r := recover(); r != nil {
 			// A failed field contributes null, never the value the
 			// resolver returned alongside its error.
 			result = nil
+			if resolveFieldFinishFn != nil {
+				// The resolver panicked: the extensions were told that the
+				// field started resolving, so tell them how it ended.
+				finishFn := resolveFieldFinishFn
+				resolveFieldFinishFn = nil
+				resolveErr, isErr := r.(error)
+				if !isErr {
+					resolveErr = fmt.Errorf("%v", r)
+				}
+				if extErrs := finishFn(nil, resolveErr); len(extErrs) != 0 {
+					eCtx.Errors = append(eCtx.Errors, extErrs...)
+				}
+			}
 			handleFieldError(r, FieldASTsToNodeASTs(fp.fieldASTs), path, returnType, eCtx)
 			ok = true
 		}
@@ -833,7 +847,6 @@ func resolvePlannedField(eCtx *executionContext, parentType *Object, source inte
 	// Extensions allocate a per-field map + closure even when none are
 	// registered. Skip entirely on the common no-extensions schema —
 	// saves ~22% of allocs per resolved field on hot paths.
-	var resolveFieldFinishFn resolveFieldFinishFuncHandler
 	if len(eCtx.Schema.extensions) > 0 {
 		var extErrs []gqlerrors.FormattedError
 		extErrs, resolveFieldFinishFn = handleExtensionsResolveFieldDidStart(eCtx.Schema.extensions, eCtx, &info)
@@ -851,7 +864,9 @@ func resolvePlannedField(eCtx *executionContext, parentType *Object, source inte
 	})
 
 	if resolveFieldFinishFn != nil {
-		extErrs := resolveFieldFinishFn(result, resolveFnError)
+		finishFn := resolveFieldFinishFn
+		resolveFieldFinishFn = nil // finished: not again from the recover above
+		extErrs := finishFn(result, resolveFnError)
 		if len(extErrs) != 0 {
 			eCtx.Errors = append(eCtx.Errors, extErrs...)
 		}
